@@ -154,7 +154,7 @@ Proof. unfold comp_ok; cbn. intros H; discriminate. Qed.
 Lemma step_D s f ag s' ag' : InvA2 s (f :: ag) -> DI s -> step s f ag = (s', ag') -> DI s'.
 Proof.
   intros HA2 HD H.
-  destruct f as [[cb|full cb| | |r|]| | | |]; cbn [step do_op] in H.
+  destruct f as [[cb|full nl cb| | |r|]| | | |]; cbn [step do_op] in H.
   - destruct (s_max s <=? len (s_queue s)).
     + inversion H; subst. unfold DI in *. cbn. destruct HD as [Hd Hr]. split; [|exact Hr].
       apply forall_snoc; [exact Hd|apply comp_ok_rejected].
